@@ -262,7 +262,8 @@ theorem script_call_after_arguments (fns : List FnDef) (n : Nat) (env env' : Env
   (any number of iterations), `return`, `accept`/`reject` (the operand stays
   lazy until it is stored in the variant), `Option.Some`/`Option.None`, `?`,
   enum constructors, record literals, field access (`x.f` is a lazy path read,
-  `e.f` materialises `e`), list literals, f-strings, and `match` (examinee
+  `e.f` materialises `e`), list literals, f-strings, string concatenation
+  (`desugared_binop`), and `match` (examinee
   materialised once, discriminant switch, one guard chain per discriminant
   with the `_` arms woven in in source order, binders assigned before the
   guard, shared arm blocks, the default chain only when some variant has no
